@@ -1,12 +1,17 @@
 #!/bin/bash
-# Runs every own mutant (mutants/<Cxx>-*.diff) and every seeded change (seeded/*/patch.diff) against the check of its
-# property (quick tier) and prints a table. Usage: tools/run_mutants.sh [pattern]
+# Runs every own mutant (mutants/*.diff) and every seeded change (seeded/*/patch.diff) against the check of its
+# property (quick tier) and prints a table. Usage: tools/run_mutants.sh [pattern] [parallelism]
+# The property is the first Cnn in the mutant's name. Some stored changes are caught only by another property's check
+# (see their meta.json / DESIGN.md II.5): those print MISSED here.
 cd "$(dirname "$0")/.."
-pat="${1:-}"
-for m in mutants/*.diff seeded/*/patch.diff; do
-  case "$m" in *"$pat"*) ;; *) continue ;; esac
+pat="${1:-}"; par="${2:-3}"
+one() {
+  m="$1"
   base=$(basename "$(dirname "$m")"); [ "$base" = mutants ] && base=$(basename "$m" .diff)
-  prop=${base%%-*}
-  res=$(tools/selftest.sh "$m" "$prop" 2>&1 | tail -1 | cut -c1-200)
-  printf '%-40s %s\n' "$base" "$res"
-done
+  prop=$(echo "$base" | grep -o 'C[0-9][0-9]' | head -1)
+  [ -z "$prop" ] && { printf '%-44s %s\n' "$base" "no property in name"; return; }
+  res=$(tools/selftest.sh "$m" "$prop" 2>&1 | tail -1 | cut -c1-160)
+  printf '%-44s %s\n' "$base" "$res"
+}
+export -f one
+ls mutants/*.diff seeded/*/patch.diff | grep -- "$pat" | xargs -P "$par" -I{} bash -c 'one {}'
